@@ -1,5 +1,5 @@
 SPECIFICATION Spec
-CONSTANTS MaxItems = 2
+CONSTANTS MaxItems = 3
 INVARIANTS OnlyKnown AddrNonEmpty
 CONSTRAINT Emit
 CHECK_DEADLOCK FALSE
